@@ -628,6 +628,9 @@ func (l *SeqContext3) encode() []byte {
 	total := 6 + 2*len(l.Input) + 4*len(l.Actions)
 	coverageOffsets := make([]uint16, glyphCount)
 	for i, cov := range l.Input {
+		if total > 0xFFFF {
+			panic("SeqContext3 too large")
+		}
 		coverageOffsets[i] = uint16(total)
 		total += cov.ToTable().EncodeLen()
 	}
@@ -886,6 +889,9 @@ func (l *ChainedSeqContext1) encode() []byte {
 		if rules == nil {
 			continue
 		}
+		if total > 0xFFFF {
+			panic("ChainedSeqContext1 too large")
+		}
 		chainedSeqRuleSetOffsets[i] = uint16(total)
 		total += 2 + 2*len(rules)
 		for _, rule := range rules {
@@ -919,6 +925,9 @@ func (l *ChainedSeqContext1) encode() []byte {
 
 		pos := 2 + 2*chainedSeqRuleCount
 		for _, rule := range rules {
+			if pos > 0xFFFF {
+				panic("ChainedSeqContext1 rule set too large")
+			}
 			buf = append(buf,
 				byte(pos>>8), byte(pos),
 			)
@@ -1501,18 +1510,27 @@ func (l *ChainedSeqContext3) encode() []byte {
 	total += 4 * len(l.Actions)
 	backtrackCoverageOffsets := make([]uint16, backtrackGlyphCount)
 	for i, set := range l.Backtrack {
+		if total > 0xFFFF {
+			panic("ChainedSeqContext3 too large")
+		}
 		backtrackCoverageOffsets[i] = uint16(total)
 		cov := set.ToTable()
 		total += cov.EncodeLen()
 	}
 	inputCoverageOffsets := make([]uint16, inputGlyphCount)
 	for i, set := range l.Input {
+		if total > 0xFFFF {
+			panic("ChainedSeqContext3 too large")
+		}
 		inputCoverageOffsets[i] = uint16(total)
 		cov := set.ToTable()
 		total += cov.EncodeLen()
 	}
 	lookaheadCoverageOffsets := make([]uint16, lookaheadGlyphCount)
 	for i, set := range l.Lookahead {
+		if total > 0xFFFF {
+			panic("ChainedSeqContext3 too large")
+		}
 		lookaheadCoverageOffsets[i] = uint16(total)
 		cov := set.ToTable()
 		total += cov.EncodeLen()
